@@ -59,6 +59,14 @@ func (mgr *TopicManager) subscribe(topics []string, qoss []byte, clientID string
 	mgr.Lock()
 	defer mgr.Unlock()
 
+	// validate all topics first, so that a failed subscribe (which is not
+	// acknowledged and not recorded in the session) leaves nothing behind.
+	for _, t := range topics {
+		if _, err := mgr.getLevels(t); err != nil {
+			return err
+		}
+	}
+
 	for i, t := range topics {
 		if err := mgr.insert(t, qoss[i], clientID); err != nil {
 			return err
@@ -71,12 +79,16 @@ func (mgr *TopicManager) unsubscribe(topics []string, clientID string) error {
 	mgr.Lock()
 	defer mgr.Unlock()
 
+	// an invalid topic can't have been subscribed, skip it and go on
+	// removing the others as the session forgets all of them and the
+	// unsubscribe is acknowledged.
+	var firstErr error
 	for _, t := range topics {
-		if err := mgr.remove(t, clientID); err != nil {
-			return err
+		if err := mgr.remove(t, clientID); err != nil && firstErr == nil {
+			firstErr = err
 		}
 	}
-	return nil
+	return firstErr
 }
 
 // findSubscribers is used to find all clients that subscribe a certain topic directly or use wildcard.
